@@ -24,7 +24,7 @@ RULE = ("cases = model matrix A (m x p, m,p in 1..14; dense, banded blur, repeat
         "data and errors over 1e-3..1e3, parameter positions in d = 1..2, kernel SE / RQ (+ white noise / sums), three means; "
         "non-trivial = (m != p or rank-deficient A) with >= 3 hyper-parameters and condition numbers <= 1e9")
 ASSUMPTIONS = ["prior covariance K = the kernel's data-covariance builder (documented jitter and white-noise variance included)",
-               "tolerance (1e-9 + 100*kappa*eps)*scale with kappa = max(cond(I + K W), cond(A K A^T + S)); kappa > 1e9 inconclusive"]
+               "tolerance (1e-9 + 100*kappa*eps)*scale with kappa = min(cond(I + K W), cond(A K A^T + S)) - the better of the two standard forms; kappa > 1e9 inconclusive"]
 
 
 @st.composite
@@ -38,7 +38,8 @@ def cases(draw, max_size=14):
     A = [[draw(st.floats(-1, 1)) for _ in range(p)] for _ in range(m)]
     base.update({"m": m, "p": p, "A_style": style, "A": A, "dup": [draw(st.integers(0, 13)), draw(st.integers(0, 13))],
                  "A_log_scale": draw(st.floats(-2, 2)),
-                 "err_log": [draw(st.floats(-2.5, 0.5)) for _ in range(m)],
+                 # data errors relative to the signal; one case in five has precise data (errors down to 1e-6 of the signal)
+                 "err_log": [draw(st.floats(-2.5, 0.5)) for _ in range(m)] if draw(st.integers(0, 4)) else [draw(st.floats(-6, -3)) for _ in range(m)],
                  "resid": [draw(st.floats(-3, 3)) for _ in range(m)],
                  "truth": [draw(st.floats(-2, 2)) for _ in range(p)],
                  "theta_form": draw(st.sampled_from(["float", "float", "float", "int64", "int32"]))})
@@ -100,7 +101,11 @@ def reference(case, X, A, y, y_err, spec, th_cov, th_mean, use_mp=True):
     G = A @ K @ A.T + S
     W = A.T @ np.diag(y_err**-2.0) @ A
     with np.errstate(all="ignore"):
-        kappa = max(np.linalg.cond(np.eye(p) + K @ W), np.linalg.cond(G))
+        # the conditioning of the PROBLEM: of whichever of the two standard forms of the posterior is the better conditioned (the
+        # data-space form A K A^T + S for few data, the parameter-space form I + K W for many) - not of the one the implementation
+        # happens to use: with precise data and fewer data than parameters I + K W has a condition number of (amplitude / error)^2
+        # while the problem is as benign as A K A^T + S (an earlier version took the maximum of the two and so excused exactly that)
+        kappa = min(np.linalg.cond(np.eye(p) + K @ W), np.linalg.cond(G))
     if not np.isfinite(kappa) or kappa > 1e9:
         return None, kappa
     r = y - A @ mean
@@ -198,7 +203,14 @@ def body_posterior(case, ctx):
         raise Violation(f"covariance-psd:{tag}", f"posterior covariance eigenvalue {np.linalg.eigvalsh(sym).min():.3g}")
     if np.linalg.eigvalsh(ref["K"] - sym).min() < -slack:
         raise Violation(f"covariance-vs-prior:{tag}", f"prior - posterior covariance has eigenvalue {np.linalg.eigvalsh(ref['K'] - sym).min():.3g}")
-    tl = f * ref["scale_lml"] + ref["ro_lml"]
+    # the evidence IS a statement about A K A^T + S (its determinant, and a quadratic form in its inverse): its conditioning is that
+    # matrix's, whichever form suits the posterior
+    with np.errstate(all="ignore"):
+        kappa_ev = float(np.linalg.cond(ref["G"]))
+    if not np.isfinite(kappa_ev) or kappa_ev > 1e9:
+        ctx.event("evidence-ill-conditioned")
+        return
+    tl = (1e-9 + 100 * kappa_ev * EPS) * ref["scale_lml"] + ref["ro_lml"]
     ctx.ratio("evidence", abs(lml - ref["lml"]), tl)
     if not np.isfinite(lml) or abs(lml - ref["lml"]) > tl:
         raise Violation(f"evidence:{tag}", f"marginal_likelihood {lml!r} vs log N(y; A m, A K A^T + S) + m/2 log 2pi = {ref['lml']!r} (tol {tl:.3g})")
@@ -343,7 +355,10 @@ def body_history(case, ctx):
                     raise Violation(f"history:{what}", f"{where}: mean-only path off by {e:.3g} tolerances from the closed form")
             else:
                 v = float(inv.marginal_likelihood(arg)) if what == "evidence" else float(inv.marginal_likelihood_gradient(arg)[0])
-                tl = f * ref["scale_lml"] + ref["ro_lml"]
+                kappa_ev = float(np.linalg.cond(ref["G"]))      # (the evidence's own conditioning: that of A K A^T + S)
+                if not np.isfinite(kappa_ev) or kappa_ev > 1e9:
+                    continue
+                tl = (1e-8 + 1000 * kappa_ev * EPS) * ref["scale_lml"] + ref["ro_lml"]
                 ctx.ratio("history", abs(v - ref["lml"]), tl)
                 if not abs(v - ref["lml"]) <= tl:
                     raise Violation(f"history:{what}", f"{where}: evidence {v!r} vs closed form {ref['lml']!r} (tol {tl:.3g})")
@@ -402,7 +417,7 @@ def body_forms(case, ctx):
     mu0, S0, mu1, S1, mo1, g0, g1 = (np.asarray(a, dtype=float) for a in (mu0, S0, mu1, S1, mo1, g0, g1))
     K = rk.ref_build(spec, X, theta[rk.mean_n_params(case["mean"], d):])
     with np.errstate(all="ignore"):
-        kappa = max(np.linalg.cond(np.eye(p) + K @ (A.T @ np.diag(err**-2.0) @ A)), np.linalg.cond(A @ K @ A.T + np.diag(err**2)))
+        kappa = min(np.linalg.cond(np.eye(p) + K @ (A.T @ np.diag(err**-2.0) @ A)), np.linalg.cond(A @ K @ A.T + np.diag(err**2)))
     if not np.isfinite(kappa) or kappa > 1e8 or not np.all(np.isfinite(mu0)):
         raise Inconclusive("ill-conditioned")
     tol = 1e-9 + 1000 * kappa * EPS
